@@ -577,11 +577,19 @@ func ruleDT4(c *Ctx) {
 		}
 	}
 	cases := eventTypeCases(re)
+	rm := c.replay()
+	if rm != nil {
+		cases = rm.cases()
+	}
 	c.check(setString(emitted) == setString(cases), "<tables>", "emitted=replayed", "-", fmt.Sprintf("%d event types emitted = %d replayed: %s", len(emitted), len(cases), setString(emitted)),
 		"emitted event types "+setString(emitted)+" differ from the replay switch "+setString(cases)+": an emitted but unreplayed event is an acknowledged write with no effect")
 	// payload fields read in replay
 	read := map[string]bool{}
-	for _, g := range append([]*ssa.Function{re}, Closures(re)...) {
+	readFns := append([]*ssa.Function{re}, Closures(re)...)
+	if rm != nil {
+		readFns = rm.Unit
+	}
+	for _, g := range readFns {
 		eachInstr(g, func(r instrRef) {
 			switch x := r.In.(type) {
 			case *ssa.FieldAddr:
@@ -741,20 +749,26 @@ func ruleDT5(c *Ctx) {
 	c.check(okIDs, fn, "c:ids-from-live-graph", c.FnPos(ce), "compaction names only ids taken from graph.Tasks / graph.Deps", "compaction emits an id that does not come from the live graph: "+why)
 	// (d) result order
 	prep := false
-	eachInstr(re, func(r instrRef) {
-		cl, ok := r.In.(*ssa.Call)
-		if !ok || calleeFullName(&cl.Call) != "builtin append" || len(cl.Call.Args) != 2 {
-			return
-		}
-		// append([]Result{new}, old...): first arg is a fresh 1-element slice, second the task's Results
-		if sl, ok := cl.Call.Args[0].(*ssa.Slice); ok {
-			if _, isNew := sl.X.(*ssa.Alloc); isNew {
-				if _, n, ok := fieldLoad(cl.Call.Args[1]); ok && n == "Results" {
-					prep = true
+	replayFns := []*ssa.Function{re}
+	if rm := c.replay(); rm != nil {
+		replayFns = rm.EffectFns
+	}
+	for _, rf := range replayFns {
+		eachInstr(rf, func(r instrRef) {
+			cl, ok := r.In.(*ssa.Call)
+			if !ok || calleeFullName(&cl.Call) != "builtin append" || len(cl.Call.Args) != 2 {
+				return
+			}
+			// append([]Result{new}, old...): first arg is a fresh 1-element slice, second the task's Results
+			if sl, ok := cl.Call.Args[0].(*ssa.Slice); ok {
+				if _, isNew := sl.X.(*ssa.Alloc); isNew {
+					if _, n, ok := fieldLoad(cl.Call.Args[1]); ok && n == "Results" {
+						prep = true
+					}
 				}
 			}
-		}
-	})
+		})
+	}
 	rev := false
 	for _, em := range c.emissions() {
 		if em.Fn != ce || !em.has("result") {
@@ -1019,7 +1033,12 @@ func ruleDT6(c *Ctx) {
 	}
 	check := func(f *ssa.Function, table map[string][]string, what string) {
 		cnt := map[string]int{}
-		for _, g := range append([]*ssa.Function{f}, Closures(f)...) {
+		fns := c.unitOf(f)
+		if rm := c.replay(); rm != nil && f == rm.Root {
+			// the fold itself: the switch function and what its cases call (not post-loop migrations)
+			fns = rm.EffectFns
+		}
+		for _, g := range fns {
 			eachInstr(g, func(r instrRef) {
 				st, ok := r.In.(*ssa.Store)
 				if !ok {
@@ -1184,6 +1203,40 @@ func (c *Ctx) replayFactLabel(bf branchFact) string {
 	return c.atomLabel(a) + ":" + tf
 }
 
+// hasGraphEffects: h (or a handler it calls) stores into graph state.
+func hasGraphEffects(h *ssa.Function, rm *replayModel) bool {
+	seen := map[*ssa.Function]bool{}
+	var visit func(g *ssa.Function) bool
+	visit = func(g *ssa.Function) bool {
+		if seen[g] {
+			return false
+		}
+		seen[g] = true
+		found := false
+		eachInstr(g, func(r instrRef) {
+			switch x := r.In.(type) {
+			case *ssa.Store:
+				if fa, ok := x.Addr.(*ssa.FieldAddr); ok {
+					if tn := namedTypeName(fa.X.Type()); tn == "ergo.Task" || tn == "ergo.TaskMeta" {
+						found = true
+					}
+				}
+			case *ssa.MapUpdate:
+				found = true
+			case *ssa.Call:
+				if calleeFullName(&x.Call) == "builtin delete" {
+					found = true
+				}
+				if cal := x.Call.StaticCallee(); cal != nil && rm.handler[cal] && visit(cal) {
+					found = true
+				}
+			}
+		})
+		return found
+	}
+	return visit(h)
+}
+
 func ruleDT7(c *Ctx) {
 	re := c.anchor("replayEvents")
 	if re == nil {
@@ -1207,16 +1260,15 @@ func ruleDT7(c *Ctx) {
 	}
 	cnt := map[string]int{}
 	// the event loop: effects are examined only inside a case of the switch over Event.Type
-	caseEdges := edgesWhere(re, func(a Atom, holds bool) bool {
-		if a.Kind != "const" || !holds {
-			return false
-		}
-		b, n, ok := fieldLoad(a.X)
-		return ok && n == "Type" && namedTypeName(b.Type()) == "ergo.Event"
-	})
+	rm := c.replay()
+	if rm == nil {
+		c.unk(fn, "replay-model", c.FnPos(re), "the switch over Event.Type was not found in replay")
+		return
+	}
 	report := func(in ssa.Instruction, what string) {
 		blk := in.Block()
-		if !mustPassEdges(re, blk, caseEdges) {
+		re := in.Parent() // the effect function this instruction lives in (the switch function or a case handler)
+		if !rm.inCase(in) {
 			return // post-loop derivations (RDeps, sorted views) are unconditional by construction
 		}
 		hdr := enclosingLoopHeader(blk)
@@ -1272,6 +1324,9 @@ func ruleDT7(c *Ctx) {
 					}
 					for _, fa := range atoms {
 						any = true
+						if c.seenThrough(fa.A) {
+							continue // a nested helper call: what it tests is listed as well
+						}
 						curEnv = fa.A.Env
 						la := c.replayFactLabel(branchFact{A: fa.A, Holds: fa.Holds})
 						la0 := strings.TrimSuffix(strings.TrimSuffix(la, ":T"), ":F")
@@ -1296,30 +1351,37 @@ func ruleDT7(c *Ctx) {
 		c.check(bad == "", fn, fmt.Sprintf("%s#%d", what, cnt[what]), c.Pos(in.Pos()), "effect depends only on the documented replay conditions",
 			"this replay effect also depends on `"+bad+"`: the visible state is no longer a function of the set of events but of their order (compaction re-emits events grouped per item, hand merges interleave them)")
 	}
-	eachInstr(re, func(r instrRef) {
-		switch x := r.In.(type) {
-		case *ssa.Store:
-			if fa, ok := x.Addr.(*ssa.FieldAddr); ok {
-				tn := namedTypeName(fa.X.Type())
-				if tn == "ergo.Task" || tn == "ergo.TaskMeta" {
-					if _, isAlloc := fa.X.(*ssa.Alloc); isAlloc {
-						return // literal initialisation
+	for _, ef := range rm.EffectFns {
+		eachInstr(ef, func(r instrRef) {
+			switch x := r.In.(type) {
+			case *ssa.Store:
+				if fa, ok := x.Addr.(*ssa.FieldAddr); ok {
+					tn := namedTypeName(fa.X.Type())
+					if tn == "ergo.Task" || tn == "ergo.TaskMeta" {
+						if _, isAlloc := fa.X.(*ssa.Alloc); isAlloc {
+							return // literal initialisation
+						}
+						report(x, "store "+strings.TrimPrefix(tn, "ergo.")+"."+fieldName(fa.X.Type(), fa.Field))
 					}
-					report(x, "store "+strings.TrimPrefix(tn, "ergo.")+"."+fieldName(fa.X.Type(), fa.Field))
+				}
+			case *ssa.MapUpdate:
+				report(x, "map-update")
+			case *ssa.Call:
+				n := calleeFullName(&x.Call)
+				if n == "builtin delete" {
+					report(x, "map-delete")
+				}
+				cal := x.Call.StaticCallee()
+				if cal != nil && cal == c.F.Anchors["applyTombstone"] {
+					report(x, "apply-tombstone")
+				} else if cal != nil && rm.handler[cal] && hasGraphEffects(cal, rm) {
+					// handing the event to a case handler is itself an effect of the calling function: the conditions
+					// under which the handler runs are judged here, the handler's own conditions inside it
+					report(x, "call "+cal.Name())
 				}
 			}
-		case *ssa.MapUpdate:
-			report(x, "map-update")
-		case *ssa.Call:
-			n := calleeFullName(&x.Call)
-			if n == "builtin delete" {
-				report(x, "map-delete")
-			}
-			if cal := x.Call.StaticCallee(); cal != nil && cal == c.F.Anchors["applyTombstone"] {
-				report(x, "apply-tombstone")
-			}
-		}
-	})
+		})
+	}
 	if len(cnt) == 0 {
 		c.bad(fn, "effects", c.FnPos(re), "no replay effects found")
 	}
